@@ -134,7 +134,8 @@ def conv_inst(name, dwm, dws, awm, mode="A", adrs=None, sels=None, ctis=((0, 0),
                   slave_gen=rs, monitor=mon)
 
 
-def conv_sram_inst(name, dwm, dws, awm, depth, init=None, mode="A", adrs=None, sels=None, ctis=((0, 0),), burst=False):
+def conv_sram_inst(name, dwm, dws, awm, depth, init=None, mode="A", adrs=None, sels=None, ctis=((0, 0),), burst=False,
+                   wrapping=False):
     """Converter over a real SRAM.  `burst=True`: the SRAM's bus is bursting and (mode B) the master issues
     linear incrementing bursts, which the DownConverter forwards as bursts (wrapping ones it turns classic)."""
     nbm, nbs = dwm // 8, dws // 8
@@ -149,7 +150,7 @@ def conv_sram_inst(name, dwm, dws, awm, depth, init=None, mode="A", adrs=None, s
     if mode == "A":
         alpha = L.master_letters(nbm, adrs, sels, L.lane_values(nbm), ctis)
         return WbInst(name, top, lean_open, alphabet=alpha, monitor=mon)
-    mg = (BurstMaster(nbm, (1 << awm) - 1, linear_only=True) if burst
+    mg = (BurstMaster(nbm, (1 << awm) - 1, linear_only=not wrapping) if burst
           else ClassicMaster(nbm, (1 << awm) - 1, cti_random=True))
     return WbInst(name, top, lean_open, master_gen=mg, monitor=mon)
 
@@ -342,6 +343,12 @@ def jobs(tier):
                              init=words_init(256, 4, lambda i: 0x1000193 * (i + 1))))
     B(lambda: conv_sram_inst("Down 32->8 / burst SRAM 256B (linear bursts)", 32, 8, 10, 256, mode="B", burst=True,
                              init=words_init(256, 1, lambda i: 7 * i + 3)))
+    # wrapping bursts (bte 1..3, unaligned starts, within the wrap length): the DownConverter does not translate
+    # them, its guard turns them into classic cycles on the narrow side
+    B(lambda: conv_sram_inst("Down 32->16 / burst SRAM 512B (wrapping + linear bursts)", 32, 16, 10, 256, mode="B",
+                             burst=True, wrapping=True, init=words_init(256, 2, lambda i: 0x0101 * (i % 200 + 1))))
+    B(lambda: conv_sram_inst("Down 64->32 / burst SRAM 1KiB (wrapping + linear bursts)", 64, 32, 10, 256, mode="B",
+                             burst=True, wrapping=True, init=words_init(256, 4, lambda i: 0x01000193 * (i + 1))))
     B(lambda: conv_sram_inst("Up 32->64 / burst SRAM 1KiB (linear bursts)", 32, 64, 10, 128, mode="B", burst=True,
                              init=words_init(128, 8, lambda i: 0x0101010101010101 * (i + 1))))
     B(lambda: conv_sram_inst("Up 32->128 / SRAM 1KiB", 32, 128, 10, 64, mode="B",
@@ -389,6 +396,9 @@ def corpus_instances():
         "corpus: Up 32->64 / burst SRAM d16":
             lambda: conv_sram_inst("corpus: Up 32->64 / burst SRAM d16", 32, 64, 5, 16, mode="B", burst=True,
                                    init=[0x0101010101010101 * (a + 1) for a in range(16)]),
+        "corpus: Down 32->16 / burst SRAM d64":
+            lambda: conv_sram_inst("corpus: Down 32->16 / burst SRAM d64", 32, 16, 6, 64, mode="B", burst=True,
+                                   wrapping=True, init=[0x0101 * (a + 1) for a in range(64)]),
         "corpus: Down 64->32 / SRAM d64":
             lambda: conv_sram_inst("corpus: Down 64->32 / SRAM d64", 64, 32, 8, 64, mode="B",
                                    init=[0x80000000 + a * 0x10203 for a in range(64)]),
@@ -554,6 +564,8 @@ def search_instances(tier):
     S.append(lambda: sram_inst("search: SRAM d16 dw32 burst", 32, 16, 6, burst=True, mode="B"))
     S.append(lambda: conv_sram_inst("search: Down 32->8 / SRAM d16", 32, 8, 3, 16, mode="B", init=list(range(0x21, 0x31))))
     S.append(lambda: conv_sram_inst("search: Down 64->32 / SRAM d16", 64, 32, 4, 16, mode="B"))
+    S.append(lambda: conv_sram_inst("search: Down 32->16 / burst SRAM d64 (wrapping + linear bursts)", 32, 16, 5, 64,
+                                    mode="B", burst=True, wrapping=True, init=[0x0101 * (a + 1) for a in range(64)]))
     S.append(lambda: conv_sram_inst("search: Up 8->32 / SRAM d4", 8, 32, 5, 4, mode="B",
                                     init=[0x04030201, 0x08070605, 0x0C0B0A09, 0x100F0E0D]))
     S.append(lambda: conv_inst("search: Converter 32->8 (ref slave)", 32, 8, 3, mode="B"))
